@@ -407,3 +407,68 @@ def gen_network(rng, consts, band="ok", horizon="day", n=None):
     meta = {"v6": v6, "n": n, "band": band, "lat": (lo, hi), "events": events,
             "nodes": {nd["name"]: {"addr": nd["addr"].script(), "aport": nd["aport"]} for nd in nodes}}
     return sc, meta
+
+
+def gen_keepfresh(rng, consts, minutes):
+    """C11: one real node, 1..8 scripted contacts partitioned into always-answering / silent-from-t; contacts sampled every
+    5 virtual seconds, find_node probes every minute; optional searches; single-contact and connected regimes."""
+    sc = simlib.Scenario()
+    v6 = rng.chance(1, 4)
+    own = comp.rand_id(rng)
+    naddr = addr_in_family(rng, v6, 1)
+    sc.add("seed %d" % rng.below(1 << 30))
+    lat_hi = rng.choice([2 * MS, 20 * MS, 100 * MS, 200 * MS])
+    sc.add("latency %d %d" % (1 * MS, lat_hi))
+    k = rng.choice([1, 1, 2, 3, 4, 6, 8])
+    end = minutes * MIN
+    contacts = []
+    n_silent = rng.below(k) if k > 1 else rng.choice([0, 0, 1])
+    for i in range(k):
+        a = addr_in_family(rng, v6, 100 + i)
+        idv = comp.rand_id(rng) if rng.chance(3, 4) else own ^ (1 << rng.below(159))
+        c = {"name": "r%d" % i, "addr": a, "id": idv, "silent_from": None, "named_until": None, "in_world": True}
+        if i >= k - n_silent:
+            c["silent_from"] = rng.choice([0, rng.below(30 * S), rng.range(30 * S, 14 * MIN), rng.range(14 * MIN, 17 * MIN),
+                                           rng.range(17 * MIN, max(18 * MIN, end - 30 * MIN))])
+            style = rng.choice(["unnamed", "named_until", "named_until"])
+            if style == "unnamed":
+                c["in_world"] = False
+            else:
+                c["named_until"] = rng.choice([c["silent_from"], rng.below(max(1, end - 10 * MIN)), c["silent_from"] + rng.below(20 * MIN)])
+        contacts.append(c)
+        sc.add_resp(c["name"], a, idv, "normal")
+        if c["silent_from"] is not None:
+            sc.add("outage %s %d %d" % (a.script(), c["silent_from"], 1 << 62))
+    world = [(c["id"], c["addr"]) for c in contacts if c["in_world"]]
+    if world:
+        sc.add("world " + " ".join("%040x@%s" % (i, a.script()) for i, a in world))
+    # configured contacts: everybody nobody would name otherwise, plus at least one other
+    conf = [c["addr"] for c in contacts if not c["in_world"]]
+    rest = [c["addr"] for c in contacts if c["in_world"]]
+    conf += rest[:rng.range(1, max(1, len(rest)))]
+    sc.add_node("n", naddr, own, ro=rng.chance(1, 2), aport=None, nodes=conf)
+    for c in contacts:
+        if c["named_until"] is not None:
+            sc.add("at %d unworld %s" % (c["named_until"], c["addr"].script()))
+    t = 5 * S
+    while t < end:
+        sc.add("at %d contacts n" % t)
+        t += 5 * S
+    probe_src = addr_in_family(rng, v6, 5000)
+    pid = comp.rand_id(rng)
+    j = 0
+    t = 30 * S
+    while t < end:
+        target = rng.choice([own, contacts[rng.below(k)]["id"], comp.rand_id(rng)])
+        sc.add("at %d injectmsg %s %s t=70%06x q=find_node id=%040x target=%040x want=-" % (
+            t + 1, probe_src.script(), naddr.script(), j, pid, target))
+        j += 1
+        t += 60 * S
+    if rng.chance(1, 2):
+        for _ in range(rng.range(1, 4)):
+            sc.add("at %d search n %040x %d s%d" % (rng.below(end), comp.rand_id(rng), rng.below(2), rng.below(1000)))
+    sc.add("end %d" % end)
+    meta = {"own": own, "naddr": naddr.script(), "lat_hi": lat_hi, "minutes": minutes, "probe_src": probe_src.script(),
+            "contacts": [{"name": c["name"], "addr": c["addr"].script(), "id": "%040x" % c["id"], "silent_from": c["silent_from"],
+                          "named_until": c["named_until"], "in_world": c["in_world"]} for c in contacts]}
+    return sc, meta
